@@ -35,6 +35,7 @@ DTMAX = SHARD.get("dtmax", 3)
 DTMIN = SHARD.get("dtmin", 2)
 DMAX = SHARD.get("dmax", 2 * DTMAX + 1)
 ALPHA = SHARD.get("alphabet")       # events allowed after the first one (None = all)
+PAIR = SHARD.get("pair", False)     # gets use (server_key, key) pairs: routed by the server key, the inner key is another server's
 
 SERVERS = [("10.0.0.%d" % (i + 1), 11211) for i in range(NS)]
 NAMES = ["%s:%s" % s for s in SERVERS]
@@ -60,6 +61,21 @@ def _placement():
 KEYS, TABLE = _placement()      # KEYS[i] is owned by server i when all servers are in rotation
 
 
+def _inner():
+    """for the pair (KEYS[e], inner): an inner key that placement would send elsewhere than the server key, also once the
+    owner of the server key has left the rotation (where the rotation allows it)"""
+    out = []
+    for e in range(NS):
+        rest = frozenset(NAMES) - {NAMES[e]}
+        fb = TABLE[(rest, KEYS[e])] if rest else None
+        cand = [j for j in range(NS) if j != e and TABLE[(rest, KEYS[j])] != fb] if rest else []
+        out.append(cand[0] if cand else (e + 1) % NS)
+    return out
+
+
+INNER = _inner()
+
+
 class TableHasher:
     def __init__(self):
         self.nodes = []
@@ -75,14 +91,15 @@ class TableHasher:
             raise ValueError("No such node %s to remove" % n)
 
     def get_node(self, key):
-        if not self.nodes:
-            return None
-        return TABLE[(frozenset(self.nodes), key)]
+        node = TABLE[(frozenset(self.nodes), key)] if self.nodes else None
+        World.routes.append(("ask", key, node))
+        return node
 
 
 class World:
     failing = {}
     log = []
+    routes = []     # ("ask", routing key, node chosen) for every placement query; ("contact", server) for every get
     clock = None
     where = {}
 
@@ -111,6 +128,7 @@ class Stub:
             _raise()
 
     def get(self, key, default=None):
+        World.routes.append(("contact", self.name, None))
         self._contact()
         return ("value-of", key, self.name)
 
@@ -150,6 +168,7 @@ def h_failover(e1: int, e2: int, e3: int, e4: int, e5: int, e6: int,
     World.log = []
     World.clock = clk
     World.where = {}
+    World.routes = []
     c = HC(SERVERS, hasher=TableHasher, retry_attempts=RA, retry_timeout=rt, dead_timeout=dt, ignore_exc=IGN)
     ever_failed = set()
     events = [e1, e2, e3, e4, e5, e6][:DEPTH]
@@ -171,10 +190,12 @@ def h_failover(e1: int, e2: int, e3: int, e4: int, e5: int, e6: int,
                 ever_failed.add(NAMES[i])
             continue
         n0 = len(World.log)
+        r0 = len(World.routes)
         in_rotation = list(c.hasher.nodes)
+        kin = KEYS[INNER[e]] if PAIR and e < NS else (KEYS[e] if e < NS else None)   # the key the server is asked for
         try:
             if e < NS:
-                res = c.get(KEYS[e])
+                res = c.get((KEYS[e], kin) if PAIR else KEYS[e])
             else:
                 res = c.set_many(dict((k, b"v") for k in KEYS))
             exc = None
@@ -201,9 +222,21 @@ def h_failover(e1: int, e2: int, e3: int, e4: int, e5: int, e6: int,
                                 "events", events, "delays", delays)
         if e < NS:
             owner = NAMES[e]
+            # placement is asked about the routing key (the server key of a pair) and about nothing else, and every contact
+            # goes to the server it named last
+            named = None
+            for (what, a, b) in World.routes[r0:]:
+                if what == "ask":
+                    if a != KEYS[e]:
+                        return viol("get routed by", KEYS[e], "(pair)" if PAIR else "", "asked placement about", a, "events",
+                                    events, "delays", delays)
+                    named = b
+                elif a != named:
+                    return viol("get routed by", KEYS[e], "(pair)" if PAIR else "", "contacted", a, "but placement named", named,
+                                "events", events, "delays", delays)
             if owner not in ever_failed:
                 # a server that never failed is never bypassed
-                if contacted != [owner] or res != ("value-of", KEYS[e], owner):
+                if contacted != [owner] or res != ("value-of", kin, owner):
                     return viol("server", owner, "never failed but get(", KEYS[e], ") contacted", contacted, "->", res)
             if owner not in in_rotation and owner not in c.hasher.nodes and in_rotation and exc is None and not IGN:
                 # while a server is out (before and after this call) its key is answered by a remaining server
@@ -300,6 +333,15 @@ def shards(tier):
                                                                first=first, dtmax=3)))
     out.append(dict(fn="h_failover", timeout=T, shard=dict(ns=2, ra=1, ignore_exc=True, kind="timeout", depth=4, first=3,
                                                            dtmax=3, dmax=3, alphabet=[0, 2])))
+    # (server_key, key) pairs: routed by the server key, before, during and after the eviction of its server.  With three
+    # servers the server key and the inner key fall back to different servers once the owner is out.
+    for first in firsts2:
+        out.append(dict(fn="h_failover", timeout=T, shard=dict(ns=2, ra=1, ignore_exc=False, kind="refused", pair=True,
+                                                               depth=4 if thorough else 3, first=first, dtmax=3)))
+    for ra, depth in ((1, 5), (2, 6)) if thorough else ((1, 4), (2, 5)):
+        for ign in (False, True):
+            out.append(dict(fn="h_failover", timeout=T, weight=2, shard=dict(ns=3, ra=ra, ignore_exc=ign, kind="refused", pair=True,
+                                                                             depth=depth, first=4, dtmax=2, dmax=3, alphabet=[0, 1])))
     if thorough:
         for ra in (1, 2):
             for first in (0, 1, 2, 3, 4, 6, 8):
@@ -313,7 +355,10 @@ BOUNDS = {
              "eviction, healing then traffic) over {get on the key of server i, set_many over all keys, server i starts/stops "
              "failing} (symbolic; first event = shard), clock advance 0..7 (0..3 in the 5-event shards) before each event (symbolic), 1 <= retry_timeout < "
              "dead_timeout <= 3 (symbolic), recovery traffic every 1..3 time units (symbolic); retry_attempts {0,1,2} x "
-             "ignore_exc on/off with ConnectionRefusedError, plus socket.timeout and a non-OSError memcached error",
+             "ignore_exc on/off with ConnectionRefusedError, plus socket.timeout and a non-OSError memcached error; the same with "
+             "(server_key, key) pairs on 2 servers, and on 3 servers for `server 0 fails, then gets routed by the keys of "
+             "servers 0 and 1` (4-5 events); every get must query placement with its routing key only and contact the "
+             "server placement named",
     "thorough": "5 events over the full alphabet, 6 over the reduced one; 3 servers with 4 events",
 }
 OUTSIDE = ("histories longer than 5 events; more than 3 servers; timeouts larger than 3 units (all comparisons in the code are "
